@@ -23,6 +23,7 @@ var (
 	verifMu     sync.Mutex
 	verifCounts = map[string]int{}
 	verifTraceF *os.File
+	verifTraceP string
 	verifLogF   *os.File
 )
 
@@ -62,8 +63,13 @@ func VerifTrace(event string, args ...interface{}) {
 	}
 	verifMu.Lock()
 	defer verifMu.Unlock()
-	if verifTraceF == nil {
+	if verifTraceF == nil || verifTraceP != path {
+		// the harness may run several cases in one process, each with its own trace file
+		if verifTraceF != nil {
+			verifTraceF.Close()
+		}
 		verifTraceF, _ = os.OpenFile(path, os.O_APPEND|os.O_CREATE|os.O_WRONLY, 0644)
+		verifTraceP = path
 	}
 	if verifTraceF != nil {
 		fmt.Fprintf(verifTraceF, "%s %s\n", event, strings.TrimSpace(fmt.Sprintln(args...)))
